@@ -20,14 +20,13 @@ sys.path.insert(0, os.path.join(vlib.SPEC, "p2p"))
 import p2pcheck as pc  # noqa: E402
 
 
-def judge(ctx, trace, what):
-    ok, matched, total, first, marks = pc.validate(ctx, "TracePromotionProps", trace)
-    events = vlib.read_ndjson(trace)
-    if not ok:
-        raise vlib.ToolError("trace %s not consumed at event %d: %s" % (trace, matched + 1, json.dumps(first)[:300]))
+def judge(ctx, bundle, marks):
+    """PromotionProps verdict: every BAD mark outside the self-test parts is a property failure on the real code."""
+    events = bundle.events
     n = 0
     for tag, line, keys in marks:
-        if tag != "BAD":
+        label, local = bundle.part_of(line)
+        if tag != "BAD" or label.startswith("selftest"):
             continue
         for key in keys:
             n += 1
@@ -35,21 +34,21 @@ def judge(ctx, trace, what):
             runfile, reset = pc.save_run(ctx, events, line, "c27_run_%d" % line)
             ctx.report(key, "%s: after event %d (%s peer %s) of run %s the real InitiatorBehavior breaks %s: "
                             "cold=%s warm=%s hot=%s banned=%s connects=%s limits=%s" % (
-                                what, line, e.get("ev"), e.get("p"), reset.get("sid"), key, e.get("cold"), e.get("warm"),
-                                e.get("hot"), e.get("banned"), [o["p"] for o in e.get("out", []) if o["t"] == "connect"],
+                                label, local, e.get("a", e.get("ev")), e.get("p"), reset.get("sid"), key, e.get("cold"),
+                                e.get("warm"), e.get("hot"), e.get("banned"),
+                                [o["p"] for o in e.get("out", []) if o["t"] == "connect"],
                                 {k: reset.get("cfg", {}).get(k) for k in ("max_peers", "max_warm", "max_hot", "max_err")}),
                        payload={"event": pc.slim(e), "cfg": reset.get("cfg")}, src_file=runfile)
-    ctx.cov["evaluations"] += total
     return n
 
 
-def drift(ctx, trace, what):
-    ok, matched, total, first, marks = pc.validate(ctx, "TraceInitiator", trace, count=False)
-    d = [(line, p) for tag, line, p in marks if tag == "DRIFT"]
+def drift_notes(ctx, bundle, ok, matched, total, first, marks):
+    d = [(line, p) for tag, line, p in marks if tag == "DRIFT" and not bundle.part_of(line)[0].startswith("selftest")]
     if not ok:
-        ctx.notes.append("DRIFT(%s): design-model comparison stopped at event %d: %s" % (what, matched + 1, json.dumps(first)[:200]))
+        ctx.notes.append("DRIFT: design-model comparison stopped at event %d: %s" % (matched + 1, json.dumps(first)[:200]))
     for line, p in d[:5]:
-        ctx.notes.append("DRIFT(%s): implementation step %d not reproduced by Initiator.tla: %s" % (what, line, json.dumps(p)[:200]))
+        ctx.notes.append("DRIFT(%s): implementation step %d not reproduced by Initiator.tla: %s" % (
+            bundle.part_of(line)[0], line, json.dumps(p)[:200]))
     ctx.count("design_model_steps_compared", total)
     ctx.count("design_model_drift", len(d) + (0 if ok else 1))
     return d
@@ -62,93 +61,84 @@ def run(ctx):
                "step is not observable)")
     ctx.assume("PromotionBehavior::demote_peer / ban_peer called directly (public fns, not commands) are out of scope")
 
-    # 1. exhaustive slices
-    slices = [("MCInitiatorC27.cfg", "C27a", {"MaxDepth": "5"}),
-              ("MCInitiatorC27.cfg", "C27q", {"Peers": "{1, 2}", "MaxPeers": "2", "MaxWarm": "1", "MaxDepth": "6"})]
+    # 1. exhaustive slices (quick: one TLC start; the 2-peer and deeper slices run in the thorough tier)
+    slices = [("MCInitiatorC27.cfg", "C27a", {"MaxDepth": "5"})]
     if ctx.thorough:
         slices = [("MCInitiatorC27.cfg", "C27a", {"MaxDepth": "7"}),
+                  ("MCInitiatorC27.cfg", "C27q", {"Peers": "{1, 2}", "MaxPeers": "2", "MaxWarm": "1", "MaxDepth": "6"}),
                   ("MCInitiatorC27.cfg", "C27b", {"MaxPeers": "3", "MaxWarm": "1", "MaxDepth": "6"}),
                   ("MCInitiatorC27.cfg", "C27c", {"MaxPeers": "2", "MaxWarm": "2", "MaxHot": "1", "MaxErr": "0",
                                                   "Peers": "{1, 2}", "MaxDepth": "7"})]
     rows = []
     for base, name, ov in slices:
         scheds, classes, consts = pc.mc_slice(ctx, base, name, ov, timeout=1500)
-        find, cover = pc.select(ctx, scheds, 3000 if ctx.thorough else 700)
+        find, cover = pc.select(ctx, scheds, 3000 if ctx.thorough else 900)
         cfg = pc.run_cfg_from_consts(consts, strict=False)
         for i, s in enumerate(find + cover):
             rows.append({"id": "%s-%s%d" % (name, s["kind"][0], i), "cfg": cfg, "sched": s["sched"]})
         ctx.cov.setdefault("model_c27_classes", [])
         ctx.cov["model_c27_classes"] = sorted(set(ctx.cov["model_c27_classes"]) | classes["c27"])
 
-    # 2. M2 replay, 3. verdict by PromotionProps
+    # 2. the real runs: M2 replays, random 200-event sequences over 20 peers, small random runs
     trace, res = pc.replay(ctx, binary, rows, "m2")
-    ctx.cov["traces_validated_against_impl"] += len(rows)
     ctx.cov["schedules_replayed"] = len(rows)
     ctx.sample({"tlc_schedule": rows[len(rows) // 2]["sched"]})
-    judge(ctx, trace, "TLC schedule replay")
-    # design-model comparison on a bounded part of the replays (each costs a TLC step with all visiting orders)
-    ev = vlib.read_ndjson(trace)
-    cut = 6000 if ctx.thorough else 2500
-    if len(ev) > cut:
-        while cut < len(ev) and ev[cut].get("ev") != "reset":
-            cut += 1
-        part = ctx.path("m2.part.ndjson")
-        vlib.write_ndjson(part, ev[:cut])
-    else:
-        part = trace
-    drift(ctx, part, "M2")
-
-    # random 200-event sequences over 20 peers
     runs = 60 if ctx.thorough else 12
     tr = ctx.path("rand.ndjson")
     out = ctx.run_bin(binary, ["init-random", "--mode", "c27", "--seed", ctx.seed, "--runs", runs, "--events", 200,
                                "--peers", 20, "--out", tr])
     ctx.sample({"random_driver": json.loads(out)["stats"]})
-    judge(ctx, tr, "random run")
-    ctx.cov["traces_validated_against_impl"] += runs
-    evs = vlib.read_ndjson(tr)
-    ctx.sample({"impl_trace_event": pc.slim(next(e for e in evs if e.get("ev") == "hk" and e.get("out")))})
-    # small random runs, compared with the design model too
     sruns = 20 if ctx.thorough else 6
     trs = ctx.path("rand_small.ndjson")
     ctx.run_bin(binary, ["init-random", "--mode", "c27", "--seed", int(ctx.seed) + 500, "--runs", sruns, "--events", 150,
                          "--peers", 4, "--snap", 1, "--out", trs])
-    judge(ctx, trs, "random run (small)")
-    drift(ctx, trs, "M3-small")
-    ctx.cov["traces_validated_against_impl"] += sruns
+    ctx.cov["traces_validated_against_impl"] += len(rows) + runs + sruns
+    m2 = vlib.read_ndjson(trace)
+    evs = vlib.read_ndjson(tr)
+    sev = vlib.read_ndjson(trs)
+    ctx.sample({"impl_trace_event": pc.slim(next(e for e in evs if e.get("ev") == "hk" and e.get("out")))})
 
-    # 4. binding self-tests
+    # binding self-tests ride in the same TLC runs as extra runs after the real ones
+    A = pc.Bundle().add("TLC schedule replay", m2).add("random run", evs).add("random run (small)", sev)
+    idx = next(i for i, e in enumerate(evs) if i > 30 and e.get("ev") == "hk" and e.get("warm"))
+    c1, k1 = pc.run_containing(evs, idx, idx)
+    c1[k1]["cold"] = sorted(set(c1[k1]["cold"]) | {c1[k1]["warm"][0]})
+    A.add("selftest-overlap", c1)
+    bi = next(i for i, e in enumerate(evs) if e.get("banned") and e.get("ev") not in ("reset", "skip", "panic")
+              and i + 1 < len(evs) and evs[i + 1].get("ev") not in ("reset", "skip", "panic"))
+    c2, k2 = pc.run_containing(evs, bi, bi + 1)
+    c2[k2 + 1]["out"] = list(c2[k2 + 1]["out"]) + [{"t": "connect", "p": c2[k2]["banned"][0],
+                                                    "m": {"proto": "-", "kind": "-", "ver": 0, "ps": 0, "peers": []}, "k": ""}]
+    A.add("selftest-connect", c2)
+    pa = A.write(ctx.path("all_runs.ndjson"))
+
+    # 3. verdict: PromotionProps over every real run (one TLC start)
+    ok, matched, total, first, marks = pc.validate(ctx, "TracePromotionProps", pa)
+    if not ok:
+        raise vlib.ToolError("trace not consumed at event %d: %s" % (matched + 1, json.dumps(first)[:300]))
+    ctx.cov["evaluations"] += total
+    judge(ctx, A, marks)
+
+    def st_hit(label, local, prefix):
+        line = A.first_line(label) + local
+        return any(t == "BAD" and l == line and any(k.startswith(prefix) for k in ks) for t, l, ks in marks)
     if not ctx.violations:
-        idx = next(i for i, e in enumerate(evs) if i > 30 and e.get("ev") == "hk" and e.get("warm") and e.get("ev") != "reset")
-        end = idx + 20
-        c1 = [dict(e) for e in evs[:end]]
-        c1[idx]["cold"] = sorted(set(c1[idx]["cold"]) | {c1[idx]["warm"][0]})
-        p1 = ctx.path("selftest_overlap.ndjson")
-        vlib.write_ndjson(p1, c1)
-        _, _, _, _, marks = pc.validate(ctx, "TracePromotionProps", p1, count=False)
-        ctx.selftest("warm peer also logged as cold at event %d" % (idx + 1),
-                     any(t == "BAD" and l == idx + 1 and any(k.startswith("disjoint/cold-warm") for k in ks) for t, l, ks in marks))
-        # a Connect for a peer that is in the banned set
-        bi = next((i for i, e in enumerate(evs) if e.get("banned") and e.get("ev") not in ("reset", "skip", "panic")), None)
-        if bi is not None:
-            nxt = next(i for i in range(bi + 1, len(evs)) if evs[i].get("ev") not in ("reset", "skip", "panic"))
-            if not any(e.get("ev") == "reset" for e in evs[bi:nxt + 1]):
-                c2 = [dict(e) for e in evs[:nxt + 5]]
-                c2[nxt]["out"] = list(c2[nxt]["out"]) + [{"t": "connect", "p": evs[bi]["banned"][0],
-                                                         "m": {"proto": "-", "kind": "-", "ver": 0, "ps": 0, "peers": []}, "k": ""}]
-                p2 = ctx.path("selftest_connect.ndjson")
-                vlib.write_ndjson(p2, c2)
-                _, _, _, _, marks = pc.validate(ctx, "TracePromotionProps", p2, count=False)
-                ctx.selftest("Connect for a banned peer injected at event %d" % (nxt + 1),
-                             any(t == "BAD" and l == nxt + 1 and any(k.startswith("banned-connect") for k in ks) for t, l, ks in marks))
-        # dropping a state-changing event must be noticed by the design-model comparison
-        sev = vlib.read_ndjson(trs)
-        di = next(i for i, e in enumerate(sev) if i > 10 and e.get("ev") == "hk" and any(o["t"] == "connect" for o in e.get("out", [])))
-        dropped = [e for i, e in enumerate(sev[:di + 30]) if i != di]
-        p3 = ctx.path("selftest_dropped.ndjson")
-        vlib.write_ndjson(p3, dropped)
-        _, _, _, _, marks = pc.validate(ctx, "TraceInitiator", p3, count=False)
-        ctx.selftest("housekeeping event %d dropped" % (di + 1), any(t == "DRIFT" for t, _, _ in marks))
+        ctx.selftest("warm peer also logged as cold", st_hit("selftest-overlap", k1, "disjoint/cold-warm"))
+        ctx.selftest("Connect for a banned peer injected", st_hit("selftest-connect", k2 + 1, "banned-connect"))
+
+    # 4. design-model comparison (DRIFT only) on a bounded part of the replays + the small runs + a dropped event
+    B = pc.Bundle().add("M2", pc.cut_at_reset(m2, 8000 if ctx.thorough else 2500)).add("M3-small", sev)
+    di = next(i for i, e in enumerate(sev) if i > 10 and e.get("ev") == "hk" and any(o["t"] == "connect" for o in e.get("out", [])))
+    c3, k3 = pc.run_containing(sev, di, min(di + 10, len(sev) - 1))
+    c3 = [e for i, e in enumerate(c3) if i != k3]
+    cut = next((i for i, e in enumerate(c3) if i > 0 and e.get("ev") == "reset"), len(c3))
+    B.add("selftest-dropped", c3[:cut])
+    pb = B.write(ctx.path("model_runs.ndjson"))
+    okb, mb, tb, fb, marksb = pc.validate(ctx, "TraceInitiator", pb, count=False)
+    drift_notes(ctx, B, okb, mb, tb, fb, marksb)
+    if not ctx.violations:
+        ctx.selftest("housekeeping event with a Connect dropped",
+                     any(t == "DRIFT" and B.part_of(l)[0] == "selftest-dropped" for t, l, _ in marksb))
 
     return ctx.finish(
         rule="MC: Initiator.tla || PromotionProps, 3 peers, limits 2/2/1/1, all commands and interface events (incl. "
